@@ -8,7 +8,8 @@ import sys
 import warnings
 
 warnings.simplefilter('ignore')
-sys.path.insert(0, '/repo')
+import os
+sys.path.insert(0, os.environ.get('PYVC_REPO', '/repo'))
 import torch  # noqa: E402
 import torchsde  # noqa: E402
 
@@ -80,7 +81,7 @@ def c12(args):
     bad = []
     for (method, st, noise) in CONFIGS:
         for (t0, t1, dt, inner) in [(0., 1., 0.4, [0.3]), (0., 1., 0.25, [0.1, 0.15, 0.5]), (20., 21., 0.001, [20.0059, 20.5001]),
-                                    (0., 2., 0.3, [0.3, 0.31, 1.7])]:
+                                    (0., 2., 0.3, [0.3, 0.31, 1.7]), (0., 0.37, 0.1, [0.25, 0.33]), (0., 1., 0.3, [0.95]), (0., 0.5, 1.0, [0.2])]:
             d = 2
             sde = SDE(noise, st, d)
             y0 = torch.full((3, d), 0.5)
@@ -137,6 +138,78 @@ def c13(args):
                     bad.append((method, noise, t0, t2, dt, k1, (yb[-1] - ys[-1]).abs().max().item()))
                     break
     return {'reproduced': bool(bad), 'detail': bad[:6]}
+
+
+def c04(args):
+    """Distinct nodes of a deep tree must own distinct (spawn_key, depth) pairs and seeds (independence of the per-node streams)."""
+    bad = []
+    for levy in ('none', 'space-time'):
+        bm = torchsde.BrownianInterval(0., 1., size=(4,), entropy=5, levy_area_approximation=levy, dtype=torch.float64, cache_size=None)
+        bm(0., 0.5)
+        for k in range(50):
+            bm(k / 100., (k + 1) / 100.)
+        for k in range(50, 100):
+            bm(k / 100., (k + 1) / 100.)
+        seen, stack, n = {}, [bm], 0
+        while stack:
+            nd = stack.pop()
+            if getattr(nd, '_midway', None) is None:
+                continue
+            n += 1
+            key = (int(nd._spawn_key), int(nd._depth))
+            if key in seen:
+                o = seen[key]
+                bad.append((levy, 'two nodes share (spawn_key, depth)', key, (o._start, o._end), (nd._start, nd._end), 'same W seed', int(o._W_seed) == int(nd._W_seed)))
+                if len(bad) > 3:
+                    break
+            seen[key] = nd
+            stack += [nd._left_child, nd._right_child]
+        if n < 60:
+            bad.append((levy, 'tree unexpectedly shallow', n))
+    return {'reproduced': bool(bad), 'detail': [str(b) for b in bad[:5]]}
+
+
+def c09(args):
+    """Adjoint gradients against backpropagation through the same solver on the same Brownian path at a fine step (both converge to the
+    true gradient), for every adjoint method the documentation admits; plus equal forward values."""
+    import warnings
+    bad, seen = [], []
+    cases = []
+    for noise in ('diagonal', 'scalar', 'additive', 'general'):
+        for am in ('euler', 'milstein'):
+            if am == 'milstein' and noise != 'diagonal':
+                continue
+            cases.append(('ito', noise, 'euler', am))
+        for am in ('midpoint', 'heun', 'euler_heun') + (('milstein',) if noise == 'diagonal' else ()):
+            cases.append(('stratonovich', noise, 'midpoint', am))
+        cases.append(('stratonovich', noise, 'reversible_heun', 'adjoint_reversible_heun'))
+    for st, noise, fm, am in cases:
+        d, Bn = 2, 256
+        m = noise_m(noise, d)
+        torch.manual_seed(0)
+        grads, vals = [], []
+        for adjoint in (False, True):
+            sde = SDE(noise, st, d).double()
+            y0 = torch.full((Bn, d), 0.5, dtype=torch.float64, requires_grad=True)
+            bm = torchsde.BrownianInterval(0., 1., size=(Bn, m), entropy=21, dtype=torch.float64)
+            ts = torch.tensor([0., 0.4, 1.0], dtype=torch.float64)
+            with warnings.catch_warnings():
+                warnings.simplefilter('ignore')
+                if adjoint:
+                    ys = torchsde.sdeint_adjoint(sde, y0, ts, bm=bm, method=fm, adjoint_method=am, dt=2.0 ** -8)
+                else:
+                    ys = torchsde.sdeint(sde, y0, ts, bm=bm, method=fm, dt=2.0 ** -8)
+            loss = (ys[-1] ** 2).sum(1).mean() + 0.5 * (ys[1] ** 2).sum(1).mean()
+            g = torch.autograd.grad(loss, [y0] + list(sde.parameters()))
+            grads.append(torch.cat([g[0].sum(0).reshape(-1)] + [x.reshape(-1) for x in g[1:]]))
+            vals.append(ys.detach())
+        rel = ((grads[0] - grads[1]).abs().max() / grads[0].abs().max().clamp_min(1e-12)).item()
+        seen.append((st, noise, fm, am, round(rel, 5)))
+        if not torch.equal(vals[0], vals[1]):
+            bad.append((st, noise, fm, am, 'forward values differ', (vals[0] - vals[1]).abs().max().item()))
+        if rel > 0.05:
+            bad.append((st, noise, fm, am, 'adjoint gradient differs from backprop gradient at dt=2^-8 by relative', round(rel, 4)))
+    return {'reproduced': bool(bad), 'detail': {'bad': [str(b) for b in bad[:8]], 'all': [str(x) for x in seen]}}
 
 
 def c10(args):
@@ -263,7 +336,476 @@ def history(args):
     return {'reproduced': bool(bad), 'detail': {'queries': qs, 'mismatches': [str(b) for b in bad[:4]]}}
 
 
-RECIPES = {'c10': c10, 'c03': c03, 'c06': c06, 'history': history, 'linear_interp': linear_interp, 'c12': c12, 'c13': c13}
+
+def _sdeint_cfg(st, noise, d=2, B=2):
+    sde = SDE(noise, st, d)
+    m = noise_m(noise, d)
+    return sde, m, torch.full((B, d), 0.5)
+
+
+def c15(args):
+    """Forward reversible Heun, then the negated time-reversed SDE with ReverseBrownian and negated extras (incl. a clipped last step)."""
+    bad = []
+    for noise in ('diagonal', 'scalar', 'additive', 'general'):
+        for span in (1.0, 1.0625):
+            sde, m, y0 = _sdeint_cfg('stratonovich', noise)
+            ts = torch.tensor([0., 0.5, span])
+            bm = torchsde.BrownianInterval(0., span, size=(2, m), entropy=3, dtype=torch.float64)
+            ys, (f, g, z) = torchsde.sdeint(sde, y0, ts, bm=bm, method='reversible_heun', dt=0.125, extra=True)
+
+            class Minus(torch.nn.Module):
+                noise_type, sde_type = sde.noise_type, sde.sde_type
+
+                def f(self, t, y):
+                    return -sde.f(-t, y)
+
+                def g(self, t, y):
+                    return -sde.g(-t, y)
+            # reverse on the same grid: step by step so that the grids coincide
+            grid = [0.]
+            while grid[-1] < span:
+                grid.append(min(grid[-1] + 0.125, span))
+            yb, extra = ys[-1], (-f, -g, z)
+            for k in range(len(grid) - 1, 0, -1):
+                out, extra = torchsde.sdeint(Minus(), yb, torch.tensor([-grid[k], -grid[k - 1]]), bm=torchsde.ReverseBrownian(bm),
+                                             method='reversible_heun', dt=1.0, extra=True, extra_solver_state=extra)
+                yb = out[-1]
+            err = (yb - y0).abs().max().item()
+            if err > 1e-9:
+                bad.append((noise, span, err))
+    return {'reproduced': bool(bad), 'detail': bad[:6]}
+
+
+def c17(args):
+    bad = []
+    class Gen(torch.nn.Module):
+        def __init__(self, base):
+            super().__init__()
+            self.base, self.noise_type, self.sde_type = base, 'general', base.sde_type
+
+        def f(self, t, y):
+            return self.base.f(t, y)
+
+        def g(self, t, y):
+            g = self.base.g(t, y)
+            return torch.diag_embed(g) if self.base.noise_type == 'diagonal' else g
+    for method in ('euler', 'euler_heun', 'heun', 'midpoint', 'reversible_heun', 'log_ode'):
+        st = 'ito' if method == 'euler' else 'stratonovich'
+        for noise in ('diagonal', 'scalar', 'additive'):
+            sde, m, y0 = _sdeint_cfg(st, noise)
+            outs = []
+            for s_ in (sde, Gen(sde)):
+                bm = bm_for(method, 2, m, 0., 1.)
+                outs.append(torchsde.sdeint(s_, y0, torch.tensor([0., 0.4, 1.0]), bm=bm, method=method, dt=0.125))
+            err = (outs[0] - outs[1]).abs().max().item()
+            if err > 1e-10:
+                bad.append((method, noise, err))
+    return {'reproduced': bool(bad), 'detail': bad[:6]}
+
+
+def c20(args):
+    bad = []
+    for (method, st, noise) in CONFIGS + [('log_ode', 'stratonovich', 'general')]:
+        d = 2
+        sde = SDE(noise, st, d)
+        m = noise_m(noise, d)
+        y0 = torch.rand(3, d, generator=torch.Generator().manual_seed(1), dtype=torch.float64)
+        bm = bm_for(method, 3, m, 0., 1.)
+        ts = torch.tensor([0., 0.3, 1.0])
+        ys = torchsde.sdeint(sde, y0, ts, bm=bm, method=method, dt=0.125)
+        y0b = y0.clone()
+        y0b[1:] = y0b[1:] + 1.0
+        ysb = torchsde.sdeint(sde, y0b, ts, bm=bm, method=method, dt=0.125)
+        if not torch.equal(ys[:, 0], ysb[:, 0]):
+            bad.append((method, noise, 'row 0 changed when rows 1,2 changed', (ys[:, 0] - ysb[:, 0]).abs().max().item()))
+    for size in ((2, 3), (2, 3, 3), (2, 2, 2, 3)):
+        bm = torchsde.BrownianInterval(0., 1., size=size, entropy=4, levy_area_approximation='davie', dtype=torch.float64)
+        W, U, A = bm(0., 1., return_U=True, return_A=True)
+        H = U - 0.5 * W
+        resid = (A - (H.unsqueeze(-1) * W.unsqueeze(-2) - W.unsqueeze(-1) * H.unsqueeze(-2))).reshape(-1, size[-1], size[-1])
+        for i in range(resid.shape[0]):
+            for j in range(i + 1, resid.shape[0]):
+                if torch.allclose(resid[i], resid[j], atol=1e-12) and resid[i].abs().max() > 0:
+                    bad.append(('levy noise shared between batch entries', size, i, j))
+                    break
+    return {'reproduced': bool(bad), 'detail': [str(b) for b in bad[:6]]}
+
+
+def c08(args):
+    """Directional finite differences vs backprop, y0 requiring grad or not."""
+    bad = []
+    for (method, st, noise) in CONFIGS + [('milstein', 'stratonovich', 'scalar'), ('srk', 'ito', 'diagonal')]:
+        for y0_rg in (False, True):
+            torch.manual_seed(0)
+            d = 2
+            m = noise_m(noise, d)
+
+            class P(SDE):
+                def __init__(self):
+                    super().__init__(noise, st, d)
+                    self.b = torch.nn.Parameter(torch.tensor(0.4))
+
+                def g(self, t, y):
+                    return super().g(t, y) * (1 + self.b * torch.tanh(y).mean(dim=1).reshape(-1, *([1] * (super().g(t, y).dim() - 1))))
+            sde = P()
+            y0 = torch.full((2, d), 0.5, requires_grad=y0_rg)
+            ts = torch.tensor([0., 0.3, 0.75, 1.0])
+
+            def run(y0_):
+                bm = bm_for(method, 2, m, 0., 1.)
+                return (torchsde.sdeint(sde, y0_, ts, bm=bm, method=method, dt=0.25) ** 2).sum()
+            loss = run(y0)
+            params = list(sde.parameters())
+            grads = torch.autograd.grad(loss, params, allow_unused=True)
+            eps = 1e-6
+            for p_, g_ in zip(params, grads):
+                with torch.no_grad():
+                    p_.add_(eps)
+                    lp = run(y0.detach())
+                    p_.sub_(2 * eps)
+                    lm = run(y0.detach())
+                    p_.add_(eps)
+                fd = ((lp - lm) / (2 * eps)).item()
+                ga = 0.0 if g_ is None else g_.item()
+                if abs(fd - ga) > 1e-5 * max(1.0, abs(fd)):
+                    bad.append((method, noise, y0_rg, 'param', fd, ga))
+    return {'reproduced': bool(bad), 'detail': [str(b) for b in bad[:6]]}
+
+
+def c18(args):
+    bad = []
+    for noise in ('diagonal', 'additive', 'general', 'scalar'):
+        for method, st in (('euler', 'ito'), ('srk', 'ito'), ('heun', 'stratonovich'), ('reversible_heun', 'stratonovich')):
+            if method == 'srk' and noise == 'general':
+                continue
+            d = 2
+            m = noise_m(noise, d)
+            c = torch.tensor([0.3, -0.7][:m] if noise != 'diagonal' else [0.3, -0.7])
+
+            class L(SDE):
+                def g(self, t, y):
+                    # full column rank, so that pinv(g) g c == c and the exact value 0.5 |c|^2 (t_i - t_{i-1}) applies
+                    if self.noise_type == 'additive':
+                        return (torch.tensor([[0.3, 0.1], [0.0, 0.2]]) * (1.0 + 0.5 * t)).expand(y.shape[0], 2, 2)
+                    if self.noise_type == 'general':
+                        return torch.diag_embed(0.3 + 0.2 * torch.cos(y)) + 0.05
+                    return super().g(t, y) * (1.0 + 0.5 * t)
+
+                def h(self, t, y):
+                    g = self.g(t, y)
+                    return self.f(t, y) - (g * c if self.noise_type == 'diagonal' else (g @ c))
+            sde = L(noise, st, d)
+            y0 = torch.full((2, d), 0.5)
+            ts = torch.tensor([0., 0.25, 0.75, 1.0])
+            ys0 = torchsde.sdeint(sde, y0, ts, bm=bm_for(method, 2, m, 0., 1.), method=method, dt=0.125)
+            mb = m if noise != 'diagonal' else d + 1
+            levy = 'space-time' if method == 'srk' else 'none'
+            # same noise for the first channels: build the augmented Brownian motion from the same entropy is not possible for
+            # diagonal noise (extra channel), so compare only the non-diagonal cases for non-interference
+            ys1, lq = torchsde.sdeint(sde, y0, ts, bm=(bm_for(method, 2, m, 0., 1.) if noise != 'diagonal' else None), method=method, dt=0.125, logqp=True)
+            want = 0.5 * (c ** 2).sum() * (ts[1:] - ts[:-1])
+            if (lq - want.unsqueeze(1)).abs().max().item() > 1e-8:
+                bad.append((noise, method, 'exact case', lq[:, 0].tolist(), want.tolist()))
+            if noise != 'diagonal' and (ys0 - ys1).abs().max().item() > 1e-12:
+                bad.append((noise, method, 'state disturbed', (ys0 - ys1).abs().max().item()))
+            if tuple(lq.shape) != (len(ts) - 1, 2) or (lq < 0).any():
+                bad.append((noise, method, 'shape/sign', tuple(lq.shape)))
+    return {'reproduced': bool(bad), 'detail': [str(b) for b in bad[:6]]}
+
+
+def c14(args):
+    """Adaptive stepping invariants on recorded step() calls."""
+    from torchsde._core import methods as M
+    bad = []
+    for method, st, noise, dt_min in [(m_, s_, n_, q_) for (m_, s_, n_) in (('euler', 'ito', 'additive'), ('midpoint', 'stratonovich', 'diagonal'),
+                                                                            ('reversible_heun', 'stratonovich', 'diagonal'), ('milstein', 'ito', 'diagonal'))
+                                      for q_ in (1e-3, 4e-3, 1e-2, 2e-2)]:
+        d = 2
+        m = noise_m(noise, d)
+
+        class Stiff(SDE):
+            def f(self, t, y):
+                return -40.0 * y + torch.sin(5 * t)
+        sde = Stiff(noise, st, d)
+        cls = M.select(method, st)
+        calls = []
+        orig = cls.step
+
+        def rec(self, t0, t1, y0, extra0, _orig=orig):
+            r = _orig(self, t0, t1, y0, extra0)
+            calls.append((float(t0), float(t1), y0.clone(), tuple(e.clone() for e in extra0), r[0].clone(), tuple(e.clone() for e in r[1])))
+            return r
+        cls.step = rec
+        try:
+            y0 = torch.full((2, d), 0.5)
+            ys = torchsde.sdeint(sde, y0, torch.tensor([0., 0.5, 1.0]), bm=bm_for(method, 2, m, 0., 1.), method=method, dt=0.2,
+                                 adaptive=True, rtol=1e-3, atol=1e-3, dt_min=dt_min)
+        finally:
+            cls.step = orig
+        if len(calls) % 3:
+            bad.append((method, 'step calls not in groups of three', len(calls)))
+            continue
+        t, y, ex = 0.0, y0, calls[0][3]
+        for k in range(0, len(calls), 3):
+            full, h1, h2 = calls[k:k + 3]
+            if abs(full[0] - t) > 1e-12:
+                bad.append((method, 'trial does not start at the current time', full[0], t))
+                break
+            if full[1] - full[0] < dt_min * (1 - 1e-9) and abs(full[1] - 1.0) > 1e-12:
+                bad.append((method, 'trial shorter than dt_min', full[1] - full[0]))
+            if not torch.equal(full[2], y) or (ex is not None and any(not torch.equal(a, b) for a, b in zip(full[3], ex))):
+                bad.append((method, 'trial starts from a state that is not the last accepted state', k // 3))
+                break
+            nxt = calls[k + 3][0] if k + 3 < len(calls) else 1.0
+            if nxt > t + 1e-15:          # accepted
+                t, y, ex = full[1], h2[4], h2[5]
+        if abs(t - 1.0) > 1e-12:
+            bad.append((method, 'does not end at ts[-1]', t))
+        if (ys[-1] - y).abs().max().item() > 1e-12:
+            bad.append((method, 'returned value is not the two-half-step value', (ys[-1] - y).abs().max().item()))
+    return {'reproduced': bool(bad), 'detail': [str(b) for b in bad[:6]]}
+
+
+def c07(args):
+    """Solver-shaped long histories and corner configurations must return normally."""
+    import time
+    bad = []
+    t_start = time.time()
+    cfgs = [dict(), dict(cache_size=0), dict(cache_size=1), dict(cache_size=None), dict(dt=1e-4), dict(tol=1e-3, halfway_tree=True),
+            dict(tol=1e-2, dt=1e-4, cache_size=1), dict(levy_area_approximation='space-time')]
+    for kw in cfgs:
+        N = 3000 if kw.get('halfway_tree') else 20000
+        try:
+            bm = torchsde.BrownianInterval(0., 1., size=(1,), entropy=1, **kw)
+            for k in range(N):
+                bm(k / N, (k + 1) / N)
+            for k in reversed(range(N - 200, N)):
+                bm(k / N, (k + 1) / N)
+            bm(0., 1. / N)
+            bm(0.3, 0.3 + 1e-12) if kw.get('tol') else None
+            c = getattr(bm, '_increment_and_space_time_levy_area_cache', None)
+            cs = kw.get('cache_size', 45)
+            if cs is not None and c is not None and hasattr(c, '__len__') and len(c) > cs:
+                bad.append((kw, 'cache holds more than cache_size entries', len(c)))
+        except (RecursionError, AttributeError, KeyError, ZeroDivisionError) as e:
+            bad.append((kw, type(e).__name__, str(e)[:80]))
+        if time.time() - t_start > 110:
+            break
+    try:
+        bp = torchsde.BrownianPath(0., torch.zeros(1))
+        for k in range(1200):
+            bp(k / 1200.)
+    except (RecursionError, AttributeError) as e:
+        bad.append(('BrownianPath point evaluations', type(e).__name__))
+    return {'reproduced': bool(bad), 'detail': [str(b) for b in bad[:6]]}
+
+
+def c19(args):
+    """Replay one cell of the configuration matrix natively."""
+    st, noise, method = args['sde_type'], args['noise'], args['method']
+    levy, adaptive, logqp = args.get('bm'), args.get('adaptive', False), args.get('logqp', False)
+    d = 3
+    m = d if noise == 'diagonal' else (1 if noise == 'scalar' else 2)
+
+    class S(torch.nn.Module):
+        noise_type, sde_type = noise, st
+
+        def f(self, t, y):
+            return -y
+
+        def g(self, t, y):
+            return torch.ones(y.shape[0], d) if noise == 'diagonal' else torch.ones(y.shape[0], d, m)
+
+        def h(self, t, y):
+            return -0.5 * y
+    mb = (d + 1 if noise == 'diagonal' else m) if logqp else m
+    bm = None if levy in (None, 'None') else torchsde.BrownianInterval(0., 1., size=(2, mb), levy_area_approximation=levy)
+    try:
+        torchsde.sdeint(S(), torch.ones(2, d), torch.tensor([0., 1.]), bm=bm, method=None if method in (None, 'None') else method,
+                        dt=0.5, adaptive=adaptive, logqp=logqp)
+        outcome = 'integrated'
+    except Exception as e:
+        outcome = type(e).__name__
+    want = args.get('documented')
+    bad = (outcome == 'integrated') != bool(want) or (not want and outcome != 'ValueError')
+    return {'reproduced': bool(bad), 'detail': {'cell': args, 'outcome': outcome}}
+
+
+def c19adj(args):
+    """One cell of the adjoint matrix: sdeint_adjoint + backward; records the solvers that are constructed."""
+    from torchsde._core import methods as M
+    st, noise, fm, am = args['sde_type'], args['noise'], args['method'], args['adjoint_method']
+    sde = SDE(noise, st, 2)
+    m = noise_m(noise, 2)
+    chosen = []
+    orig = M.select
+
+    def rec(method, sde_type):
+        chosen.append(method)
+        return orig(method=method, sde_type=sde_type)
+    M.select = rec
+    import torchsde._core.adjoint as ADJ
+    ADJ.methods.select = rec
+    outcome = 'integrated'
+    try:
+        y0 = torch.full((2, 2), 0.5, requires_grad=True)
+        import warnings
+        with warnings.catch_warnings():
+            warnings.simplefilter('ignore')
+            ys = torchsde.sdeint_adjoint(sde, y0, torch.tensor([0., 0.5, 1.]), bm=bm_for(fm, 2, m, 0., 1.), method=fm, adjoint_method=am, dt=0.25)
+            ys.sum().backward()
+    except Exception as e:
+        outcome = type(e).__name__
+    finally:
+        M.select = orig
+        ADJ.methods.select = orig
+    used = chosen[1] if len(chosen) > 1 else None
+    bad = (used is not None and used != am) or (outcome == 'integrated' and not args.get('admissible', True))
+    return {'reproduced': bool(bad), 'detail': {'cell': args, 'outcome': outcome, 'solvers constructed': chosen}}
+
+
+def c01(args):
+    """Empirical strong order against the exact solution of  dX = a X dt + (alpha + beta t) X dW  (diagonal noise, explicit time dependence),
+    driven by the same Brownian path (W_T and U_T = int W ds from the BrownianInterval): least-squares slope over dt = 2^-3 .. 2^-7."""
+    import math
+    from torchsde._core import methods as M
+    a, alpha, beta, T, Bn, d = -0.5, 0.4, 1.0, 1.0, 4096, 2
+    only = args.get('method')
+    bad, seen = [], []
+    for method, st in (('euler', 'ito'), ('milstein', 'ito'), ('srk', 'ito'), ('milstein', 'stratonovich'), ('heun', 'stratonovich'),
+                       ('midpoint', 'stratonovich'), ('euler_heun', 'stratonovich'), ('reversible_heun', 'stratonovich'), ('log_ode', 'stratonovich')):
+        if only and method != only:
+            continue
+
+        class S(torch.nn.Module):
+            noise_type, sde_type = 'diagonal', st
+
+            def f(self, t, y):
+                return a * y
+
+            def g(self, t, y):
+                return (alpha + beta * t) * y
+        levy = 'foster' if method == 'log_ode' else 'space-time'
+        bm = torchsde.BrownianInterval(0., T, size=(Bn, d), dtype=torch.float64, levy_area_approximation=levy, entropy=11)
+        W, U = bm(0., T, return_U=True)
+        isq = alpha ** 2 * T + alpha * beta * T ** 2 + beta ** 2 * T ** 3 / 3.
+        idw = alpha * W + beta * (T * W - U)
+        x0 = torch.ones(Bn, d, dtype=torch.float64)
+        truth = x0 * torch.exp(a * T - (0.5 * isq if st == 'ito' else 0.0) + idw)
+        errs, dts = [], [2.0 ** -k for k in range(3, 8)]
+        sde = S()
+        for dt in dts:
+            with torch.no_grad():
+                ys = torchsde.sdeint(sde, x0, torch.tensor([0., T], dtype=torch.float64), bm=bm, method=method, dt=dt)
+            errs.append(((ys[-1] - truth) ** 2).sum(1).mean().sqrt().item())
+        xs, ysl = [math.log(v) for v in dts], [math.log(v) for v in errs]
+        mx, my = sum(xs) / len(xs), sum(ysl) / len(ysl)
+        slope = sum((x - mx) * (y - my) for x, y in zip(xs, ysl)) / sum((x - mx) ** 2 for x in xs)
+        cls = M.select(method, st)
+        from torchsde._core.base_sde import ForwardSDE
+        adv = cls(sde=ForwardSDE(sde), bm=bm, dt=0.1, adaptive=False, rtol=1e-3, atol=1e-3, dt_min=1e-5, options={}).strong_order
+        seen.append((method, st, adv, round(slope, 3)))
+        if slope < adv - 0.3:
+            bad.append((method, st, 'advertised', adv, 'empirical', round(slope, 3)))
+    return {'reproduced': bool(bad), 'detail': {'slower than advertised': [str(b) for b in bad], 'all': [str(x) for x in seen]}}
+
+
+def c16rename(args):
+    """RenameMethodsSDE with the names mapping of the counterexample: every slot must be the user's method of that source name."""
+    from torchsde._core.base_sde import RenameMethodsSDE
+    canon = ('f', 'g', 'h', 'g_prod', 'f_and_g', 'f_and_g_prod')
+    kws = ('drift', 'diffusion', 'prior_drift', 'diffusion_prod', 'drift_and_diffusion', 'drift_and_diffusion_prod')
+    user = torch.nn.Module()
+    user.noise_type, user.sde_type = 'diagonal', 'ito'
+    for n in canon + ('mu', 'sigma', 'nu', 'sig_prod', 'mu_sigma', 'mu_sigma_prod'):
+        setattr(user, n, (lambda tag: (lambda *a: tag))(n))
+    names = args.get('names', {})
+    r = RenameMethodsSDE(user, **names)
+    bad = []
+    for slot, kw in zip(canon, kws):
+        src = names.get(kw, slot)
+        want = getattr(user, src, None)
+        got = r.__dict__.get(slot, None)
+        if got is not want:
+            bad.append({'slot': slot, 'source name': src, 'bound to': None if got is None else got(), 'should be': None if want is None else want()})
+    return {'reproduced': bool(bad), 'detail': {'names': names, 'wrong slots': bad}}
+
+
+def c16(args):
+    bad = []
+    for noise in ('diagonal', 'general'):
+        for method, st in (('euler', 'ito'), ('milstein', 'ito'), ('heun', 'stratonovich'), ('euler_heun', 'stratonovich'), ('reversible_heun', 'stratonovich')):
+            if method == 'milstein' and noise == 'general':
+                continue
+            base = SDE(noise, st, 2)
+            m = noise_m(noise, 2)
+
+            def prod(g, v):
+                return g * v if noise == 'diagonal' else torch.bmm(g, v.unsqueeze(-1)).squeeze(-1)
+            variants = {
+                'f+g': dict(f=base.f, g=base.g),
+                'f_and_g': dict(f_and_g=lambda t, y: (base.f(t, y), base.g(t, y))),
+                'f+g_prod': dict(f=base.f, g_prod=lambda t, y, v: prod(base.g(t, y), v)),
+                'f_and_g_prod': dict(f_and_g_prod=lambda t, y, v: (base.f(t, y), prod(base.g(t, y), v))),
+                'renamed': dict(foo=base.f, bar=base.g),
+            }
+            ref = None
+            for name, meths in variants.items():
+                obj = torch.nn.Module()
+                obj.noise_type, obj.sde_type = noise, st
+                for k, v in meths.items():
+                    setattr(obj, k, v)
+                try:
+                    ys = torchsde.sdeint(obj, torch.full((2, 2), 0.5), torch.tensor([0., 0.5, 1.]), bm=bm_for(method, 2, m, 0., 1.), method=method, dt=0.25,
+                                         names={'drift': 'foo', 'diffusion': 'bar'} if name == 'renamed' else None)
+                except RuntimeError as e:
+                    if 'has not been provided' in str(e):
+                        continue
+                    bad.append((noise, method, name, 'RuntimeError', str(e)[:60]))
+                    continue
+                except Exception as e:
+                    bad.append((noise, method, name, type(e).__name__, str(e)[:60]))
+                    continue
+                if ref is None:
+                    ref = ys
+                elif not torch.equal(ref, ys):
+                    bad.append((noise, method, name, 'different solution', (ref - ys).abs().max().item()))
+    # derived operators against their definitions (explicit Jacobians)
+    from torchsde._core.base_sde import ForwardSDE
+    for noise in ('diagonal', 'general', 'scalar', 'additive'):
+        base = SDE(noise, 'ito', 2).double()
+        m = noise_m(noise, 2)
+        fs = ForwardSDE(base)
+        gen = torch.Generator().manual_seed(5)
+        y = torch.rand(3, 2, generator=gen, dtype=torch.float64, requires_grad=True)
+        v1 = torch.rand(3, m, generator=gen, dtype=torch.float64)
+        v2 = torch.rand(3, m, generator=gen, dtype=torch.float64)
+        t = torch.tensor(0.3, dtype=torch.float64)
+
+        def G(yy):
+            g = base.g(t, yy)
+            return torch.diag_embed(g) if noise == 'diagonal' else g
+        g3 = G(y)
+        J = torch.stack([torch.autograd.functional.jacobian(lambda yy: G(yy.unsqueeze(0))[0], y[b].detach()) for b in range(3)])  # (B, d, m, d)
+        want_gp = torch.einsum('bij,bj->bi', g3, v1)
+        want_gdg = torch.einsum('bijk,bkj,bj->bi', J, g3, v2)
+        got_gp, got_gdg = fs.g_prod_and_gdg_prod(t, y, v1, v2)
+        if (got_gp - want_gp).abs().max().item() > 1e-10:
+            bad.append((noise, 'g_prod differs from g v', (got_gp - want_gp).abs().max().item()))
+        got_gdg = got_gdg if torch.is_tensor(got_gdg) else torch.zeros_like(want_gdg)
+        if (got_gdg - want_gdg).abs().max().item() > 1e-10:
+            bad.append((noise, 'g dg v differs from sum_jk dg_ij/dy_k g_kj v_j', (got_gdg - want_gdg).abs().max().item()))
+        if noise == 'general':
+            a = torch.rand(3, m, m, generator=gen, dtype=torch.float64)
+            want = torch.einsum('bijk,bkl,blj->bi', J, g3, a)
+            for nm in ('dg_ga_jvp_column_sum_v1', 'dg_ga_jvp_column_sum_v2'):
+                got = getattr(fs, nm)(t, y, a)
+                if (got - want).abs().max().item() > 1e-10:
+                    bad.append((noise, nm + ' differs from its definition', (got - want).abs().max().item()))
+    return {'reproduced': bool(bad), 'detail': [str(b) for b in bad[:6]]}
+
+
+RECIPES = {'c04': c04, 'c09': c09, 'c01': c01, 'c16rename': c16rename, 'c19adj': c19adj, 'c15': c15, 'c17': c17, 'c20': c20, 'c08': c08, 'c18': c18, 'c14': c14, 'c07': c07, 'c19': c19, 'c16': c16, 'c10': c10, 'c03': c03, 'c06': c06, 'history': history, 'linear_interp': linear_interp, 'c12': c12, 'c13': c13}
 
 if __name__ == '__main__':
     name = sys.argv[1]
